@@ -70,6 +70,8 @@ def evaluate(tag, texts_ast, ext=()):
             body.append('Definition dsg%d : design := %s.' % (i, vparse.cq_design(a)))
             items.append(('r%d' % i, '(wf_design %s dsg%d, wf_report %s dsg%d)' % (extl, i, extl, i)))
         out = common.coq_eval('%s_%d' % (tag, s // CHUNK), '\n'.join(body), items, timeout=1200)
+        try: os.remove(os.path.join(common.CASES, '%s_%d.v' % (tag, s // CHUNK)))      # large; the replay file carries the text
+        except OSError: pass
         for i, (key, a) in enumerate(chunk):
             res[key] = decode(out['r%d' % i])
     return res
@@ -373,11 +375,25 @@ def stream(ctx):
     return cases
 
 
+MAX_REPORTED = 25
+
+
+def violate(ctx, replay):
+    """every failing program is a violation; only the first MAX_REPORTED get a replay file and a line (the rest are counted)"""
+    n = ctx.notes.get('failing_programs', 0) + 1
+    ctx.notes['failing_programs'] = n
+    if n <= MAX_REPORTED:
+        ctx.violation(replay)
+    else:
+        ctx.notes.setdefault('further_failing_cases', []).append(replay.get('case'))
+
+
 def run(ctx):
     ctx.level = 'translation_validation'
     ctx.cov['rule'] = ('program = one hierarchy emitted by the real VerilogGenerator for a design built from real py4hw objects (library block x width '
                        'grid wrapped in a top Logic, random netlists, transpiled behavioural blocks, adversarial names, optional-port reuse, two clock '
-                       'domains); distinct by (class, parameters); non-trivial = the generator returned text (>= 1 module) that was decided by wf_design')
+                       'domains); distinct by (class, parameters); non-trivial = the generator returned text (>= 1 module) that was decided by wf_design; plus the '
+                       'naming scopes (port names, local wire names) compared between Model/Naming.v and the real getWireNames')
     p = common.quiet_import()
     r = ctx.prove(['Properties/C03.v'])
     if not r['ok']:
@@ -403,8 +419,8 @@ def run(ctx):
                 per_finding[fid] += 1
                 ctx.known_finding(fid, '%s: %s returned text that does not parse (%s)' % (fid, c.id, c.error[:80]))
             else:
-                ctx.violation({'what': 'the generator returned text outside the Verilog subset / unparsable', 'case': c.id, 'class': c.cls,
-                               'params': c.params, 'parse_error': c.error, 'text': c.text})
+                violate(ctx, {'what': 'the generator returned text outside the Verilog subset / unparsable', 'case': c.id, 'class': c.cls,
+                              'params': c.params, 'parse_error': c.error, 'text': c.text})
     for i, c in enumerate(ok):
         programs += 1
         ctx.count(c.key())
@@ -429,8 +445,8 @@ def run(ctx):
             else:
                 unknown.append(dg)
         if unknown:
-            ctx.violation({'what': 'emitted Verilog is not well-formed: clause %s, module %s, identifier %s' % unknown[0], 'case': c.id, 'class': c.cls,
-                           'params': c.params, 'failing_clauses': unknown, 'all_diagnostics': rep, 'text': c.text})
+            violate(ctx, {'what': 'emitted Verilog is not well-formed: clause %s, module %s, identifier %s' % unknown[0], 'case': c.id, 'class': c.cls,
+                          'params': c.params, 'failing_clauses': unknown, 'all_diagnostics': rep, 'text': c.text})
         elif len(ctx.cov['samples']) < 6:
             ctx.sample({'case': c.id, 'wf_design': False, 'diagnostics': rep[:3], 'known_finding': classify(ctx, sc, rep[0], rep)})
     ctx.cov['programs'] = programs
